@@ -1,0 +1,153 @@
+//go:build verif
+
+// Contracts for the gRPC services, checked by /verif/govc.
+// This file holds comments only; it is compiled only with the "verif" tag.
+
+package services
+
+// Resource-name validators: a name with four non-trivial segments is not empty (strings.Split is a dependency).
+//@ func isValidTopicName(name) (result)
+//@   trusted
+//@   ensures result ==> name != ""
+//@ func isValidSubscriptionName(name) (result)
+//@   trusted
+//@   ensures result ==> name != ""
+//@ func isValidSnapshotName(name) (result)
+//@   trusted
+//@   ensures result ==> name != ""
+
+// ---- C16: no decodable request makes a handler panic. "Decodable" = the request message itself is non-nil,
+// every singular message field may be nil, elements of repeated message fields are non-nil, scalars arbitrary.
+
+//@ func (*subscriberServer).CreateSubscription(s, ctx, req) (resp, err)
+//@   property C16
+//@   uses tables notifyspec
+//@   nopanic
+//@   requires s != nil && s.client != nil && req != nil && tables_wf()
+
+//@ func (*subscriberServer).GetSubscription(s, ctx, req) (resp, err)
+//@   property C16
+//@   uses tables notifyspec
+//@   nopanic
+//@   requires s != nil && s.client != nil && req != nil && tables_wf()
+
+//@ func (*subscriberServer).UpdateSubscription(s, ctx, req) (resp, err)
+//@   property C16
+//@   uses tables notifyspec
+//@   nopanic
+//@   requires s != nil && s.client != nil && req != nil && tables_wf()
+
+//@ func (*subscriberServer).ListSubscriptions(s, ctx, req) (resp, err)
+//@   property C16
+//@   uses tables notifyspec
+//@   nopanic
+//@   requires s != nil && s.client != nil && req != nil && tables_wf()
+
+//@ func (*subscriberServer).DeleteSubscription(s, ctx, req) (resp, err)
+//@   property C16
+//@   uses tables notifyspec
+//@   nopanic
+//@   requires s != nil && s.client != nil && req != nil && tables_wf()
+
+//@ func (*subscriberServer).ModifyAckDeadline(s, ctx, req) (resp, err)
+//@   property C16
+//@   uses tables notifyspec
+//@   nopanic
+//@   requires s != nil && s.client != nil && req != nil && tables_wf()
+
+//@ func (*subscriberServer).Acknowledge(s, ctx, req) (resp, err)
+//@   property C16
+//@   uses tables notifyspec
+//@   nopanic
+//@   requires s != nil && s.client != nil && req != nil && tables_wf()
+
+//@ func (*subscriberServer).Pull(s, ctx, req) (resp, err)
+//@   property C16
+//@   uses tables notifyspec
+//@   nopanic
+//@   requires s != nil && s.client != nil && req != nil && tables_wf()
+
+//@ func (*subscriberServer).Seek(s, ctx, req) (resp, err)
+//@   property C16
+//@   uses tables notifyspec
+//@   nopanic
+//@   requires s != nil && s.client != nil && req != nil && tables_wf()
+
+//@ func (*subscriberServer).ModifyPushConfig(s, ctx, req) (resp, err)
+//@   property C16
+//@   uses tables notifyspec
+//@   nopanic
+//@   requires s != nil && s.client != nil && req != nil && tables_wf()
+
+//@ func (*subscriberServer).GetSnapshot(s, ctx, req) (resp, err)
+//@   property C16
+//@   uses tables notifyspec
+//@   nopanic
+//@   requires s != nil && s.client != nil && req != nil && tables_wf()
+
+//@ func (*subscriberServer).ListSnapshots(s, ctx, req) (resp, err)
+//@   property C16
+//@   uses tables notifyspec
+//@   nopanic
+//@   requires s != nil && s.client != nil && req != nil && tables_wf()
+
+//@ func (*subscriberServer).CreateSnapshot(s, ctx, req) (resp, err)
+//@   property C16
+//@   uses tables notifyspec
+//@   nopanic
+//@   requires s != nil && s.client != nil && req != nil && tables_wf()
+
+//@ func (*subscriberServer).UpdateSnapshot(s, ctx, req) (resp, err)
+//@   property C16
+//@   uses tables notifyspec
+//@   nopanic
+//@   requires s != nil && s.client != nil && req != nil && tables_wf()
+
+//@ func (*subscriberServer).DeleteSnapshot(s, ctx, req) (resp, err)
+//@   property C16
+//@   uses tables notifyspec
+//@   nopanic
+//@   requires s != nil && s.client != nil && req != nil && tables_wf()
+
+//@ func (*publisherServer).ListTopics(s, ctx, req) (resp, err)
+//@   property C16
+//@   uses tables notifyspec
+//@   nopanic
+//@   requires s != nil && s.client != nil && req != nil && tables_wf()
+
+//@ func (*publisherServer).CreateTopic(s, ctx, req) (resp, err)
+//@   property C16
+//@   uses tables notifyspec
+//@   nopanic
+//@   requires s != nil && s.client != nil && req != nil && tables_wf()
+
+//@ func (*publisherServer).GetTopic(s, ctx, req) (resp, err)
+//@   property C16
+//@   uses tables notifyspec
+//@   nopanic
+//@   requires s != nil && s.client != nil && req != nil && tables_wf()
+
+//@ func (*publisherServer).UpdateTopic(s, ctx, req) (resp, err)
+//@   property C16
+//@   uses tables notifyspec
+//@   nopanic
+//@   requires s != nil && s.client != nil && req != nil && tables_wf()
+
+//@ func (*publisherServer).DeleteTopic(s, ctx, req) (resp, err)
+//@   property C16
+//@   uses tables notifyspec
+//@   nopanic
+//@   requires s != nil && s.client != nil && req != nil && tables_wf()
+
+//@ func (*publisherServer).ListTopicSubscriptions(s, ctx, req) (resp, err)
+//@   property C16
+//@   uses tables notifyspec
+//@   nopanic
+//@   requires s != nil && s.client != nil && req != nil && tables_wf()
+
+//@ func (*publisherServer).Publish(s, ctx, req) (resp, err)
+//@   property C16
+//@   uses tables notifyspec
+//@   nopanic
+//@   requires s != nil && s.client != nil && req != nil && tables_wf()
+//@   requires forall i int :: {req.Messages[i]} 0 <= i && i < len(req.Messages) ==> req.Messages[i] != nil
